@@ -110,6 +110,12 @@ func VC12_TwoOut_Quick() {
 	vc12(tNetCfg{nIn: 1, nBias: 1, nHid: 1, nOut: 2, atype: neatmath.LinearActivation})
 }
 
+// the output list names the outputs in another order than the node list: "at every output" means position by position
+// in the network's own output list
+func VC12_TwoOutReversed_Quick() {
+	vc12(tNetCfg{nIn: 1, nBias: 1, nHid: 0, nOut: 2, outsReversed: true, atype: neatmath.LinearActivation})
+}
+
 // two hidden nodes whose link may run against the id order
 func VC12_TwoHidden_Quick() {
 	vc12(tNetCfg{nIn: 1, nBias: 1, nHid: 2, nOut: 1, hidAnyOrder: true, atype: neatmath.LinearActivation})
